@@ -270,6 +270,43 @@ PROPS = {
     ),
 }
 
+# Every property is also checked against the library compiled the other ways the build offers: derived from each property's `assert` target(s)
+# (same sources, same light flags), unless the property already has a target for that library variant.
+#   noswap: documented option UFW_USE_BUILTIN_SWAP off;  freestanding: -ffreestanding (C sources of the harness too);  O2: -O2, no sanitizer;
+#   uchar: -funsigned-char;  regopts (register table only): REGISTER_TABLE_WITH_NAMES + REGISTER_TABLE_WITH_AREA_USER_DATA
+def _derive_variants():
+    import copy
+    for pid, P in PROPS.items():
+        have = {t.get("lib", "asan") for t in P["targets"]}
+        templates = [t for t in P["targets"] if t.get("lib") == "assert"]
+        names = {t["name"] for t in P["targets"]}
+        for variant, lib in (("noswap", "noswap"), ("freestanding", "freestanding"), ("O2", "fast"), ("uchar", "uchar"), ("regopts", "regopts")):
+            if lib in have or variant in names or (variant == "regopts" and pid not in ("C01", "C02", "C03", "C04", "C05")) or \
+                    (variant == "noswap" and pid > "C11"):   # the byte-swap option only reaches code that uses the endian codecs
+                continue
+            for t in templates:
+                d = copy.deepcopy(t)
+                d["name"] = t["name"].replace("assert", variant)
+                d["lib"] = lib
+                if variant == "noswap":
+                    d["noswap"] = True
+                d["quick"] = dict(d["quick"], shards=2, of=12)       # a sixth of the work: shard 0 carries the fixed phases
+                d["thorough"] = dict(d["thorough"], shards=4, of=16)
+                for tier in ("quick", "thorough"):
+                    if "cases" in d[tier]:
+                        d[tier]["cases"] = max(100, d[tier]["cases"] // 2)
+                P["targets"].append(d)
+
+
+_derive_variants()
+
+# ... and once with the whole run happening before main() is entered (VP_MAIN in support/vp.hpp): the main enum target's binary, one shard
+for _pid, _P in PROPS.items():
+    _main = _P["targets"][0]
+    if not _main.get("rapidcheck") and not _main.get("fuzz"):
+        _P["targets"].append(dict(name="premain", binary_of=_main["name"], sources=_main["sources"], lib=_main.get("lib", "asan"), env={"VP_PREMAIN": "1"},
+                                  quick=dict(shards=1, of=12), thorough=dict(shards=2, of=16)))
+
 NOTE_COMMON = ("trusted: clang/ASan/UBSan, the harness and its reference model; the search is bounded (see evidence: tier bounds and counts); "
                "host-specific (little-endian, LP64)")
 MANIFEST_TEXT = {
